@@ -1,33 +1,14 @@
-"""Per-property configuration of the check driver (see DESIGN.md §3, §5)."""
+"""Per-property configuration of the check driver: the union of checks.d/*.py
+(each defines PROPS; see checks.d/lead.py and DESIGN.md §3, §5)."""
+import glob, importlib.util, os, sys
 
-def rapid(name, test, q, t, **kw):
-    d = dict(name=name, kind="rapid", test=test, quick=q, thorough=t)
-    d.update(kw)
-    return d
-
-def direct(name, test, **kw):
-    d = dict(name=name, kind="direct", test=test, quick=dict(shards=1, timeout=900), thorough=dict(shards=1, timeout=3600))
-    d.update(kw)
-    return d
-
-def fuzz(name, test, seconds, **kw):
-    d = dict(name=name, kind="fuzz", test=test, tiers=["thorough"], quick=dict(seconds=10), thorough=dict(seconds=seconds))
-    d.update(kw)
-    return d
-
-PROPS = {
-    "C01": dict(pkg="chain", level="exploration", stages=[
-        rapid("rapid", "TestC01", dict(shards=16, checks=150), dict(shards=16, checks=5000, timeout=6000)),
-    ]),
-    "C17": dict(pkg="chain", level="exploration", stages=[
-        direct("exhaustive", "TestC17Exhaustive"),
-        rapid("rapid", "TestC17", dict(shards=8, checks=1500), dict(shards=16, checks=40000, timeout=3000)),
-        fuzz("fuzz", "FuzzC17Ops", 180),
-    ]),
-    "C20": dict(pkg="wallet", level="exploration", stages=[
-        direct("vectors", "TestC20Vectors"),
-        direct("sweep", "TestC20Sweep"),
-        rapid("rapid", "TestC20", dict(shards=8, checks=6000), dict(shards=16, checks=300000, timeout=3000)),
-        fuzz("fuzz", "FuzzC20Phrase", 240),
-    ]),
-}
+_d = os.path.join(os.path.dirname(os.path.abspath(__file__)), "checks.d")
+sys.path.insert(0, _d)
+PROPS = {}
+for _f in sorted(glob.glob(os.path.join(_d, "*.py"))):
+    if os.path.basename(_f).startswith("_"):
+        continue
+    _spec = importlib.util.spec_from_file_location("checks_" + os.path.basename(_f)[:-3], _f)
+    _m = importlib.util.module_from_spec(_spec)
+    _spec.loader.exec_module(_m)
+    PROPS.update(_m.PROPS)
